@@ -697,6 +697,16 @@ class Exec:
         c = Callee(t)
         args = [self._operand(body, st, a) for a in t["args"]]
         target = c.target
+        if frame and c.full and (target is None or target not in self.prog.bodies) and "<Self as " in c.full or \
+                (frame and c.full and target not in self.prog.bodies and re.search(r"<[A-Z]\w* as ", c.full or "")):
+            # inside an inlined generic (a trait's provided method, a function generic over an implementor): the type
+            # parameter is bound by the call that was inlined, which selects the impl
+            full = subst_ty(c.full, st.env)
+            full = re.sub(r"::<[^<>]*>$", "", full)
+            for cand in (full, re.sub(r"<([\w:]+) as ([\w:]+)<.*>>::", r"<\1 as \2<T>>::", full)):
+                if cand in self.prog.bodies:
+                    target = cand
+                    break
         nt = norm(target) if target else None
         if c.is_ptr:
             fterm = self._operand(body, st, t["func"])
@@ -750,6 +760,34 @@ class Exec:
                     for r in cont(st3, ret):
                         yield r
                 return
+        # -- integer conversions: `u64::from(x: u32)` is the widening cast; `u32::from(b: bool)` decides b
+        mfrom = re.search(r"<impl std::convert::From<(\w+)> for ([ui](?:8|16|32|64|128|size))>::from$", target or "")
+        if mfrom and args:
+            if mfrom.group(1) == "bool":
+                key, neg = args[0], False
+                while isinstance(key, tuple) and key[0] == "un" and key[1] == "Not":
+                    key, neg = key[2], not neg
+                if isinstance(key, tuple) and key[0] == "c" and isinstance(key[1], int):
+                    for r in cont(st, ("c", int(bool(key[1]) != neg), mfrom.group(2))):
+                        yield r
+                    return
+                kn = st.known.get(key)
+                if kn is None:
+                    kn = _range_eval(st, key)
+                for v in (1, 0):
+                    if kn is not None and isinstance(kn, int) and kn != v:
+                        continue
+                    s2 = st.fork()
+                    s2.known[key] = v
+                    _range_update(s2, key, v)
+                    s2.events.append(Event("cond", bb, frame, body, term=key, value=v, exp=False, span=span, is_bool=True))
+                    for r in cont(s2, ("c", int(bool(v) != neg), mfrom.group(2))):
+                        yield r
+                return
+            if re.match(r"^[ui](8|16|32|64|128|size)$", mfrom.group(1)):
+                for r in cont(st, ("cast", "IntToInt", args[0], mfrom.group(2))):
+                    yield r
+                return
         # -- higher-order models
         if self.models:
             mk = nt
@@ -757,6 +795,8 @@ class Exec:
                 mk = "std::iter::Iterator::any"
             elif nt and nt.endswith(" as std::iter::Iterator>::all"):
                 mk = "std::iter::Iterator::all"
+            elif nt and nt.endswith(" as std::iter::Iterator>::for_each"):
+                mk = "std::iter::Iterator::for_each"
             elif nt and nt.endswith(" as std::ops::Try>::branch"):
                 mk = "std::ops::Try::branch"
             elif nt and nt.endswith(">::from_residual") and " as std::ops::FromResidual<" in nt:
@@ -1663,6 +1703,109 @@ def _model_option_filter(ex, body, st, bb, t, c, args, frame, cont, target, nt, 
                     yield r
 
 
+def _chain_next(ex, body, st, bb, frame, it, ntgt, span, target, nt):
+    """one `next()` of an iterator chain: yields (state, item | None | 'skip', exit|None).  `map(inner, f)` applies f to the
+    inner item, `filter(inner, p)` yields the inner item if p(&item) and 'skip' (go on with the next one) otherwise; anything
+    else is an opaque `next` call reported as an event of <I as Iterator>::next."""
+    base = it
+    while isinstance(base, tuple) and base[0] == "ref":
+        base = base[1]
+    if isinstance(base, tuple) and base[0] == "call" and norm(base[1]) in ("std::iter::Iterator::map", "std::iter::Iterator::filter") \
+            and len(base[2]) == 2:
+        kind = norm(base[1]).split("::")[-1]
+        inner, fn = base[2]
+        cb = ex._closure_body(fn)
+        for (s, x, e_) in _chain_next(ex, body, st, bb, frame, inner, ntgt, span, target, nt):
+            if e_ is not None or x is None or x == "skip" or cb is None:
+                yield (s, x if cb is not None else x, e_)
+                continue
+            arg = x if kind == "map" else ("ref", x)
+            for (s2, ret, ex_) in _run_closure(ex, body, s, bb, frame, cb, fn, [arg], target, nt, span, kind):
+                if ex_ is not None:
+                    yield (s2, None, ex_)
+                elif kind == "map":
+                    yield (s2, ret, None)
+                else:
+                    vals = [ret[1]] if isinstance(ret, tuple) and ret[0] == "c" and isinstance(ret[1], int) else [1, 0]
+                    for v in vals:
+                        s3 = s2.fork() if len(vals) > 1 else s2
+                        if len(vals) > 1:
+                            key, vv = ret, v
+                            while isinstance(key, tuple) and key[0] == "un" and key[1] == "Not":
+                                key, vv = key[2], 1 - vv
+                            kn = s3.known.get(key)
+                            if kn is not None and isinstance(kn, int) and kn != vv:
+                                continue
+                            s3.known[key] = vv
+                            s3.events.append(Event("cond", bb, frame, body, term=key, value=vv, exp=False, span=span, is_bool=True))
+                        yield (s3, x if v else "skip", None)
+        return
+    res = ("call", ntgt, (("ref", it),), fresh())
+    st.events.append(Event("call", bb, frame, body, target=ntgt, ntarget=norm(ntgt), args=[("ref", it)], result=res,
+                           callee=_FakeCallee(ntgt), span=span, fterm=None, pure=False))
+    st.memver += 1
+    s0 = st.fork()
+    s0.known[("disc", res)] = 0
+    s0.events.append(Event("cond", bb, frame, body, term=("disc", res), value=0, exp=False, span=span, is_bool=False))
+    yield (s0, None, None)
+    s1 = st.fork()
+    s1.known[("disc", res)] = 1
+    s1.events.append(Event("cond", bb, frame, body, term=("disc", res), value=1, exp=False, span=span, is_bool=False))
+    yield (s1, ("field", "0", ("variant", "Some", res)), None)
+
+
+def _innermost_iter_type(full, it):
+    """the type whose `next` is reported: that of the innermost iterator of the chain (`vec::Drain<Rc<T>>`)"""
+    m = re.match(r"^<(.*) as std::iter::Iterator>::\w+", full or "")
+    ty = m.group(1) if m else "I"
+    while True:
+        m2 = re.match(r"^std::iter::(?:Map|Filter)<(.*), [^,]*>$", ty)
+        if not m2:
+            break
+        ty = m2.group(1)
+    return ty
+
+
+def _model_iter_for_each(ex, body, st, bb, t, c, args, frame, cont, target, nt, span):
+    """Iterator::for_each(f) as the loop it is: next(); None -> done; Some(x) -> f(x), again.  Adaptors in front of it
+    (filter, map ..) are not interpreted: the item is whatever the chain's `next` yields."""
+    it, clos = args[0], args[1] if len(args) > 1 else None
+    cb = ex._closure_body(clos)
+    if cb is None:
+        return
+    full = (c.full or "") if c is not None else ""
+    ntgt = "<%s as std::iter::Iterator>::next" % _innermost_iter_type(full, it)
+    rounds = max(1, ex.unroll)
+
+    def again(s, k):
+        if k + 1 < rounds:
+            for r in step(s, k + 1):
+                yield r
+        else:
+            ex._count()
+            yield (s, ("retry", bb), None)
+
+    def step(s, k):
+        for (s1, item, e_) in _chain_next(ex, body, s, bb, frame, it, ntgt, span, target, nt):
+            if e_ is not None:
+                yield (s1, e_, None)
+            elif item is None:
+                for r in cont(s1, ("c", "()", "()")):
+                    yield r
+            elif item == "skip":
+                for r in again(s1, k):
+                    yield r
+            else:
+                for (s2, ret, ex_) in _run_closure(ex, body, s1, bb, frame, cb, clos, [item], target, nt, span, "each"):
+                    if ex_ is not None:
+                        yield (s2, ex_, None)
+                        continue
+                    for r in again(s2, k):
+                        yield r
+    for r in step(st, 0):
+        yield r
+
+
 def _mk_iter_any(kind):
     def model(ex, body, st, bb, t, c, args, frame, cont, target, nt, span):
         """Iterator::any / all (f) as the loop it is: next(); None -> false/true; Some(x) -> f(x) decides or goes on.
@@ -1817,6 +1960,7 @@ def _model_cell_replace(ex, body, st, bb, t, c, args, frame, cont, target, nt, s
 
 
 HIGHER_ORDER = {
+    "std::iter::Iterator::for_each": _model_iter_for_each,
     "std::iter::Iterator::any": _mk_iter_any("any"),
     "std::iter::Iterator::all": _mk_iter_any("all"),
     "std::ops::Try::branch": _model_try_branch,
